@@ -257,3 +257,12 @@ Definition spec_render (fuel : nat) (cfg : config) (fs : fsys) (name : bytes) (c
   | Ok ct => spec_tpl fuel cfg fs (merge_ctx caller (base_ctx cfg)) name ct
   | ENotFound => ENotFound | ETypeError => ETypeError | EFuel => EFuel
   end.
+
+(* the renders of a history as the cache-free specification gives them *)
+Fixpoint run_spec (fuel : nat) (cfg : config) (st : est) (h : list step) : list (res bytes) :=
+  match h with
+  | [] => []
+  | Edit p new :: r => run_spec fuel cfg (do_edit st p new) r
+  | Render name caller :: r => spec_render fuel cfg (s_fs st) name caller :: run_spec fuel cfg st r
+  end.
+
